@@ -230,6 +230,12 @@ func RunHistory(t *rapid.T, st *stats.Collector, o HistOpts) (*World, *LState, *
 	opts := env.Options{}
 	w := NewWorld(t, st, opts, o.Focus...)
 	w.ViaHTTP = o.ViaHTTP
+	if o.ViaHTTP && rapid.IntRange(0, 2).Draw(t, "bigintAsString") == 0 {
+		w.BigintAsString = true
+		if st != nil {
+			st.Class("bigint-as-string")
+		}
+	}
 	if o.ViaHTTP && rapid.IntRange(0, 2).Draw(t, "writesThroughV1") == 0 {
 		w.V1Writes = true
 		if st != nil {
